@@ -19,7 +19,8 @@ Inductive atom :=
 | ABool                             (* read x != 0, write x as u8 *)
 | AChar8                            (* read x as char, write x as u8 (truncating) *)
 | ACount (w : nat) (cap : option N) (* bw(calc = tail.len() as uW) ; optional bw(assert(len <= cap)) *)
-| AText (n : nat)                   (* fixed-width text: strip at first NUL / truncate + NUL-pad *)
+| AText (n : nat) (z : bool)        (* fixed-width text: strip at first NUL / truncate + NUL-pad; z = the writer cuts to n-1
+                                       bytes so that the last byte is always NUL (binrw_write_codepage_string_nul_terminated) *)
 | ADur (w : nat) (scale : N)        (* Duration in ms <-> w-byte count of scale-ms units *)
 | ACustom (c : custom).
 
@@ -31,7 +32,7 @@ Inductive tail :=
 | TVec (elt : list (string * atom)) (padm padk : nat)
       (* #[br(count = n)] Vec<struct>, followed by (n mod padm) * padk spare bytes *)
 | TWords                                 (* IndexSet of 4-byte words (duplicates collapse) *)
-| TTextEof (max align : nat).            (* until_eof text / aligned writer *)
+| TTextEof (max align : nat) (z : bool).  (* until_eof text / aligned writer; z = NUL-terminated variant of the writer *)
 
 Inductive tvalue := TVNone | TVRows (rows : list (list value)) | TVWords (ws : list N) | TVText (bs : list N).
 
@@ -49,6 +50,14 @@ Definition round_up (len align : nat) : nat :=
 Definition write_aligned (max align : nat) (bs : list N) : list N :=
   firstn max (bs ++ repeat 0 (round_up (length bs) align - length bs)).
 
+(* binrw_write_codepage_string_nul_terminated::<SIZE>(_, 0|1): cut to SIZE-1, one NUL, NUL-pad to SIZE *)
+Definition write_text (n : nat) (z : bool) (bs : list N) : list N :=
+  if z then match n with O => [] | S k => write_fixed k bs ++ [0] end else write_fixed n bs.
+(* ... ::<SIZE>(_, align): cut to SIZE-1, one NUL, NUL-pad to a multiple of align (never beyond SIZE) *)
+Definition write_aligned_z (max align : nat) (bs : list N) : list N :=
+  let r := firstn (Nat.pred max) bs ++ [0] in
+  r ++ repeat 0 (Nat.min (round_up (length r) align) max - length r).
+
 Definition pow256 (w : nat) : N := 256 ^ N.of_nat w.
 
 Section Codec.
@@ -60,7 +69,7 @@ Section Codec.
   Definition awidth (a : atom) : nat :=
     match a with
     | ANum w _ => w | APad n => n | AEnum _ => 1 | AFlags w _ => w | ABool => 1 | AChar8 => 1
-    | ACount w _ => w | AText n => n | ADur w _ => w | ACustom c => cwidth c
+    | ACount w _ => w | AText n _ => n | ADur w _ => w | ACustom c => cwidth c
     end.
 
   (* count = number of elements of the tail (what `calc = v.len()` sees) *)
@@ -82,7 +91,7 @@ Section Codec.
         | Some c => if c <? count then Err else Ok (le_enc w (count mod pow256 w))
         | None => Ok (le_enc w (count mod pow256 w))
         end
-    | AText n, VB bs => Ok (write_fixed n bs)
+    | AText n z, VB bs => Ok (write_text n z bs)
     | ADur w scale, VN ms =>
         let q := ms / scale in if q <? pow256 w then Ok (le_enc w q) else Err
     | ACustom c, v => cenc c v
@@ -99,7 +108,7 @@ Section Codec.
     | ABool => Ok (VN (if le_dec bs =? 0 then 0 else 1), None)
     | AChar8 => Ok (VN (le_dec bs), None)
     | ACount w _ => Ok (VU, Some (le_dec bs))
-    | AText _ => Ok (VB (strip_nul bs), None)
+    | AText _ _ => Ok (VB (strip_nul bs), None)
     | ADur w scale => Ok (VN (le_dec bs * scale), None)
     | ACustom c => match cdec c bs with Ok v => Ok (v, None) | Err => Err | Panic => Panic end
     end.
@@ -199,7 +208,7 @@ Section Codec.
         | Err => Err | Panic => Panic
         end
     | TWords, TVWords ws => if forallb (fun w => w <? pow256 4) ws then Ok (enc_words ws) else Panic
-    | TTextEof max align, TVText bs => Ok (write_aligned max align bs)
+    | TTextEof max align z, TVText bs => Ok (if z then write_aligned_z max align bs else write_aligned max align bs)
     | _, _ => Panic
     end.
 
@@ -220,7 +229,7 @@ Section Codec.
                     | Ok (ws, r) => Ok (TVWords (dedupe [] ws), r) | Err => Err | Panic => Panic end
         | None => Panic
         end
-    | TTextEof _ _ => Ok (TVText (strip_nul bs), [])
+    | TTextEof _ _ _ => Ok (TVText (strip_nul bs), [])
     end.
 
   Definition enc_struct (l : layout) (vs : list value) (tv : tvalue) : res (list N) :=
